@@ -247,9 +247,57 @@ def sample(ctx, budget=1.0, hint=None, broken=None):
                 fail('%s.%s/after-reassignment' % (kind, nm), '%s answers for stale control points after %s was reassigned' % (nm, attrs[which]),
                      {'kind': kind, 'initial': [repr(p) for p in ps], 'assign': [attrs[which], repr(qs[which])]}, repr(val),
                      repr(complex(*map(float, _bern_exact_c(cur, 0.37)))), '')
+    # derived segments: reversed / cropped / split / transformed copies made AFTER the original was measured and evaluated
+    # (whatever the original cached must not leak into the copy): every representation of the copy describes the copy
+    for it in range(int(ctx.n(80, 800) * budget)):
+        kind, k = r.choice(KINDS)
+        ps, scale = _rand_pts(r, k)
+        if all(q == ps[0] for q in ps):
+            continue
+        seg = _mk(spt, kind, ps)
+        warm = r.sample(['length', 'length-rev', 'poly', 'points', 'derivative'], r.randint(0, 3))
+        try:
+            for w in warm:
+                if w == 'length':
+                    seg.length()
+                elif w == 'length-rev':
+                    seg.length(t0=1, t1=0) if kind != 'line' else seg.length()
+                elif w == 'poly':
+                    seg.poly()
+                elif w == 'points':
+                    seg.points([0.25, 0.5])
+                else:
+                    seg.derivative(0.3)
+            how = r.choice(['reversed', 'reversed', 'cropped', 'split', 'translated', 'rotated', 'scaled'])
+            if how == 'reversed':
+                der = seg.reversed()
+            elif how == 'cropped':
+                der = seg.cropped(0.25, 0.75)
+            elif how == 'split':
+                der = seg.split(0.5)[1]
+            elif how == 'translated':
+                der = seg.translated(complex(1.5, -2.25) * scale)
+            elif how == 'rotated':
+                der = seg.rotated(33.5)
+            else:
+                der = seg.scaled(-1.5)
+        except Exception:
+            continue
+        n_eval += 1
+        nontriv.add(('derived', kind, how, tuple(sorted(warm))))
+        cur = list(der.bpoints())
+        tol = 64 * 2.0 ** -52 * max(abs(p) for p in cur) * 16 * k + 1e-300
+        ts = [0.0, 0.37, 1.0]
+        for nm, val in (('point', der.point(0.37)), ('points', der.points(ts)[1]), ('poly', der.poly()(0.37)),
+                        ('poly/coeffs', np.polyval(list(der.poly(return_coeffs=True)), 0.37))):
+            if not _close(val, _bern_exact_c(cur, 0.37), tol):
+                fail('%s.%s/derived copy' % (kind, nm), '%s of a %s copy does not describe the copy (made after %s on the original)' % (nm, how, warm),
+                     {'kind': kind, 'original': [repr(p) for p in ps], 'operation': how, 'queries_before': warm}, repr(val),
+                     repr(complex(*map(float, _bern_exact_c(cur, 0.37)))), '')
+                break
     return {'evaluations': n_eval, 'distinct_nontrivial': len(nontriv), 'failures': fails, 'samples': samples,
             'rule': 'random Line/Quadratic/Cubic (scales 1e-3..1e6; coincident, collinear, integer classes), t in and slightly outside [0,1], '
-                    'n = 1..5; plus mutate-then-query sequences. distinct = distinct (kind, scale, endpoint?) / (mutate, kind, field)'}
+                    'n = 1..5; plus mutate-then-query sequences and copies derived (reversed/cropped/split/translated/rotated/scaled) after the original was measured/evaluated. distinct = distinct (kind, scale, endpoint?) / (mutate, kind, field)'}
 
 
 def replay(spt, f):
